@@ -566,8 +566,9 @@ func superMain(t *testing.T) int {
 			cmd.Env = append(os.Environ(), "VERIF_MODE=worker", fmt.Sprintf("VERIF_WORKER=%d", i), fmt.Sprintf("VERIF_NW=%d", nw),
 				fmt.Sprintf("VERIF_RUNS=%d", runs), fmt.Sprintf("VERIF_BUDGET_S=%d", secs), "VERIF_OUT="+outp, "VERIF_RELAX="+relaxCSV,
 				fmt.Sprintf("VERIF_SEED=%d", master), "VERIF_TIER="+tier, "GOMAXPROCS=2")
-			if ck.MaxWorkers > 0 {
-				// soft heap limit: collect the previous key derivation's gigabyte before the next one allocates
+			// soft heap limit: key parsing / derivation (scrypt) allocates a gigabyte at a time; collect the
+			// previous one before the next one allocates (sixteen workers at 3-4 GB each met the OOM killer)
+			if os.Getenv("GOMEMLIMIT") == "" {
 				cmd.Env = append(cmd.Env, "GOMEMLIMIT=1536MiB")
 			}
 			logf, _ := os.Create(filepath.Join(outDir, fmt.Sprintf("w%d.log", i)))
